@@ -1223,6 +1223,11 @@ def big_texts():
         for nm, es in sorted(variants.items()):
             text = 'c %s\np edge 300 %d\n' % (nm, len(es)) + ''.join('e %d %d\n' % e for e in es)
             out.append({'kind': 'text', 'gtype': gtype, 'fmt': 'dimacs', 'text': text, 'big': nm})
+            if nm in ('repeated', 'reversed-repeat'):
+                # ... and the header announcing the number of DISTINCT edges
+                # instead of the number of edge lines
+                text = 'c %s\np edge 300 %d\n' % (nm, len(es) - 1) + ''.join('e %d %d\n' % e for e in es)
+                out.append({'kind': 'text', 'gtype': gtype, 'fmt': 'dimacs', 'text': text, 'big': nm + '-undercount'})
             adj = {}
             for (u, v) in es:
                 if gtype == 'simple':
@@ -1235,6 +1240,11 @@ def big_texts():
             for v in range(1, 301):
                 lines.append('%d : %s0' % (v, ''.join('%d ' % u for u in adj.get(v, []))))
             out.append({'kind': 'text', 'gtype': gtype, 'fmt': 'kthlist', 'text': '\n'.join(lines) + '\n', 'big': nm})
+    for gtype in ('simple', 'digraph', 'dag'):
+        for text in ('p edge 2 1\ne 1 2\ne 1 2\n', 'p edge 3 2\ne 1 2\ne 2 3\ne 1 2\n',
+                     'p edge 3 2\ne 1 2\ne 1 3\ne 2 1\n', 'p edge 2 2\ne 1 2\ne 1 2\n',
+                     'p edge 4 3\ne 1 2\ne 3 4\ne 2 1\n', 'p edge 4 2\ne 1 2\ne 3 4\ne 2 1\n'):
+            out.append({'kind': 'text', 'gtype': gtype, 'fmt': 'dimacs', 'text': text, 'big': 'small-repeat'})
     return out
 
 
